@@ -253,6 +253,10 @@ def make_case(ctx, idx):
                 doc = {"not": doc}
     else:
         doc, tag = gs.any_schema(rng)
+    if isinstance(doc, dict) and rng.random() < 0.15 and "$ref" not in json.dumps(doc):
+        # keywords at their neutral value (`required: []`, `allOf: [{}]`, `minItems: 0` ...): no verdict changes
+        if gs.add_vacuous(rng, doc, count=rng.randint(1, 3)):
+            ctx.count("schemas.with_vacuous_keywords")
     try:
         if not refmodel.metaschema_valid(doc):
             ctx.count("generator.metaschema_invalid_skipped")
